@@ -30,7 +30,7 @@ def flatten_request(state):
     import binascii
     v = {}
     for k in ('st', 'H', 'KA', 'allow_auto', 'crc', 'peering_status', 'tr_connected', 'tr_disconnecting',
-              'P_disconnected', 'fourbytesas'):
+              'P_disconnected', 'fourbytesas', 'n_pending'):
         if k in state:
             v[k] = state[k]
     conf = state.get('conf', {})
@@ -137,6 +137,10 @@ class Session(object):
                           'peer_id': self.peer_id0, 'bgp_id': I('bgp_id', 0, 2 ** 32 - 1), 'peer_asn': self.remote_as,
                           'afi_safi': ['ipv4'], 'md5': None, 'status': Bv('peering_status'),
                           'handler': self.handler, 'estab_protocol': None})
+        # ghost state (C12): outstanding connectTCP attempts
+        self.n_pending0 = I('n_pending', 0)
+        self.ghost = Obj('Ghost', {'n_pending': self.n_pending0}, tag='ghost')
+        peering.f['_ghost'] = self.ghost
         # ---- fsm
         fsm = Obj(fsm_cls, tag='fsm')
         self.fsm = fsm
